@@ -51,7 +51,8 @@ def _job(args):
         run, S, pool = scen.run_symbolic(fn, cfg, mod.MODULES, seed=seed, **kw)
         out = dict(name=run.name, cfg=cfg, contract=fn.__name__, error=run.error, stats=run.stats,
                    paths=run.paths, exits=run.exits, notes=run.notes, div=run.div, results=[],
-                   snaps=sorted(core.SNAPS), cross=dict(points=0, bad=[]))
+                   snaps=sorted(core.SNAPS), cross=dict(points=0, bad=[]),
+                   need_exit=bool(getattr(fn, 'need_exit', False)))
         for r in run.results:
             d = {k: r[k] for k in ('name', 'status', 'backend', 'canary', 'detail', 'path') if k in r}
             d['seconds'] = round(r.get('seconds', 0.0), 4)
@@ -185,6 +186,8 @@ def finish(prop, mod, tier, seed, outs, extra, t0):
             undecided.append(dict(name=o['name'], detail='engine limit: ' + o['error']))
         paths += len(o.get('paths', []))
         exits += len(o.get('exits', []))
+        if o.get('need_exit') and not o.get('exits') and not o.get('error'):
+            faults.append(f"{o['name']}: the contract expects some inputs to be rejected (SystemExit) but no path was")
         notes.update(o.get('notes', []))
         snaps.update(tuple(x) for x in o.get('snaps', []))
         cross_points += o['cross']['points']
